@@ -348,7 +348,8 @@ def mutant_part(rep):
     n = 0
     for name, mutate, needs_anc in mutants():
         for entry in ("register_model", "NaniteFitModel",
-                      "register_model:key-in-use"):
+                      "register_model:key-in-use",
+                      "register_model:same-object"):
             with Registry() as reg:
                 if entry.endswith("key-in-use"):
                     # a valid model is registered under the key first
@@ -356,6 +357,11 @@ def mutant_part(rep):
                     logic.register_model(Mv)
                 M, _ = make_module("vk_mut", 1.0,
                                    anc={"E": 1234.0} if needs_anc else None)
+                if entry.endswith("same-object"):
+                    # the very module object was accepted before it was
+                    # edited (model development: register, edit, register)
+                    logic.register_model(M)
+                    logic.deregister_model(logic.models_available["vk_mut"])
                 mutate(M)
                 case = {"kind": "mutant", "mutant": name, "entry": entry}
                 before = dict(logic.models_available)
